@@ -214,11 +214,13 @@ func (in *Interp) yield() {
 // choice; the chosen one is moved to the front of the run queue.
 func (in *Interp) pickNext() {
 	sc := in.sc
-	if sc.bound == 0 || len(sc.runq) < 2 || sc.aborting {
+	if sc.bound == 0 || len(sc.runq) < 2 || sc.aborting || sc.preempts >= sc.bound {
 		return
 	}
 	c := in.choose(len(sc.runq))
 	if c > 0 {
+		// a pick other than the FIFO one counts against the bound as well
+		sc.preempts++
 		g := sc.runq[c]
 		copy(sc.runq[1:c+1], sc.runq[0:c])
 		sc.runq[0] = g
